@@ -427,7 +427,8 @@ Lemma create_pres g w e en s k ob cs n w3 calls rs :
     s_oid (gs en3 s) = Some (ostr_k k) /\ s_oid (gs en3 (negb s)) <> None /\ s_hash (gs en3 s) = s_shash (gs en3 s) /\
     e_ign en3 = INone /\
     prov_of w3 s = prov_of w s /\
-    (forall x sd0, x <> e -> getx w3 x sd0 = getx w x sd0) /\ (forall sd0, x_lg (getx w3 e sd0) = x_lg (getx w e sd0)).
+    (forall x sd0, x <> e -> getx w3 x sd0 = getx w x sd0) /\ (forall sd0, x_lg (getx w3 e sd0) = x_lg (getx w e sd0)) /\
+    (forall sd0 k0 cs0, g_get k0 (g_of g sd0) = Some cs0 -> obj_at w3 sd0 k0 = obj_at w sd0 k0).
 Proof.
   intros [I He Hn Hr] Hign Ho Hob Hl Hg Hot Hpath Hnok Hsp Hc Htf H.
   set (t := negb s) in *. set (p := [root_name t; n]).
@@ -659,7 +660,10 @@ Proof.
         rewrite Hf_t in Ho0. cbn [s_oid] in Ho0. injection Ho0 as Ho0. apply Nnat.Nat2N.inj in Ho0. subst k0. left. exact Hpdt. }
   change (negb s) with t. rewrite Hf_s, Hf_t. cbn [w_spath w_shash s_oid s_hash s_shash].
   split; [exact Ho|]. split; [discriminate|]. split; [reflexivity|]. split; [exact Hf_i|].
-  split; [exact H4ps|]. split; [exact Hgx_o|exact Hlg_e].
+  split; [exact H4ps|]. split; [exact Hgx_o|]. split; [exact Hlg_e|].
+  intros sd0 k0 cs0 Hg0. destruct (Bool.bool_dec sd0 s) as [Heq|Hne]; [subst sd0; apply Hobs|].
+  assert (sd0 = t) by (unfold t; destruct sd0, s; try reflexivity; contradiction). subst sd0.
+  apply Hobt_o. intros Hk. subst k0. congruence.
 Qed.
 
 (* ------------------------------------------------------------------ upload_synced *)
@@ -684,7 +688,8 @@ Lemma upload_pres g w e en s k ob cs k' ob' n w3 calls up :
   up = true /\ exists en3, SCtx g w3 e en3 /\
     s_oid (gs en3 s) = Some (ostr_k k) /\ s_oid (gs en3 (negb s)) <> None /\ s_hash (gs en3 s) = s_shash (gs en3 s) /\
     e_ign en3 = INone /\ prov_of w3 s = prov_of w s /\
-    (forall x sd0, x <> e -> getx w3 x sd0 = getx w x sd0) /\ (forall sd0, x_lg (getx w3 e sd0) = x_lg (getx w e sd0)).
+    (forall x sd0, x <> e -> getx w3 x sd0 = getx w x sd0) /\ (forall sd0, x_lg (getx w3 e sd0) = x_lg (getx w e sd0)) /\
+    (forall sd0 k0 cs0, g_get k0 (g_of g sd0) = Some cs0 -> obj_at w3 sd0 k0 = obj_at w sd0 k0).
 Proof.
   intros [I He Hn Hr] Hign Ho Hob Hl Hg Hot Hobt Hpath Hsp Hc Htf H.
   set (t := negb s) in *.
@@ -901,7 +906,10 @@ Proof.
         rewrite Hf_t in Ho0. cbn [w_ex w_shash w_hash s_oid] in Ho0. rewrite Hot in Ho0. injection Ho0 as Ho0. apply Nnat.Nat2N.inj in Ho0. subst k0. left. exact Hpdt. }
   change (negb s) with t. rewrite Hf_s, Hf_t. cbn [w_spath w_shash w_hash w_ex s_oid s_hash s_shash].
   split; [exact Ho|]. split; [rewrite Hot; discriminate|]. split; [reflexivity|]. split; [exact Hf_i|].
-  split; [exact H4ps|]. split; [exact Hgx_o|exact Hlg_e].
+  split; [exact H4ps|]. split; [exact Hgx_o|]. split; [exact Hlg_e|].
+  intros sd0 k0 cs0 Hg0. destruct (Bool.bool_dec sd0 s) as [Heq|Hne]; [subst sd0; apply Hobs|].
+  assert (sd0 = t) by (unfold t; destruct sd0, s; try reflexivity; contradiction). subst sd0.
+  apply Hobt_o. intros Hk. subst k0. congruence.
 Qed.
 
 (* ------------------------------------------------------------------ discarded entries *)
@@ -937,7 +945,8 @@ Lemma delete_pres g w e en s k w3 calls rs :
   SCtx g w e en -> e_ign en = INone -> s_ex (gs en s) = ExTrashed -> s_oid (gs en s) = Some (ostr_k k) ->
   delete_synced w e s = ROk (w3, calls, rs) ->
   rs = Finished /\ exists en3, SCtx g w3 e en3 /\ is_discarded (e_ign en3) = true /\
-    (forall x sd0, getx w3 x sd0 = getx w x sd0).
+    (forall x sd0, getx w3 x sd0 = getx w x sd0) /\
+    (forall sd0 k0 cs0, g_get k0 (g_of g sd0) = Some cs0 -> obj_at w3 sd0 k0 = obj_at w sd0 k0).
 Proof.
   intros [I He Hn Hr] Hign Hex Ho H.
   set (t := negb s) in *.
@@ -1072,7 +1081,10 @@ Proof.
           rewrite Hpds, Hf_s. destruct (Hr s k0 ob0 Ho0 Hob0) as [X|X]; [left; exact X|right; exact X].
         + assert (sd0 = t) by (unfold t; destruct sd0, s; try reflexivity; contradiction). subst sd0.
           rewrite Hf_t in Ho0. cbn [w_chg w_ex s_oid] in Ho0. rewrite Eot in Ho0. injection Ho0 as Ho0. apply Nnat.Nat2N.inj in Ho0. subst k0. left. exact Hpdt. }
-    split; [reflexivity|exact Hgx].
+    split; [reflexivity|]. split; [exact Hgx|].
+    intros sd0 k0 cs0 Hg0. destruct (Bool.bool_dec sd0 s) as [Heq|Hne]; [subst sd0; apply Hobs|].
+    assert (sd0 = t) by (unfold t; destruct sd0, s; try reflexivity; contradiction). subst sd0.
+    apply Hobt_o. intros Hk. subst k0. congruence.
   - (* never synchronised: nothing to delete *)
     cbn [rbind] in H.
     destruct (plain_w w Htape e t (fun y => w_ex y ExTrashed) en Hn) as (wb & Hb & Wb); [intros; split; reflexivity|].
@@ -1155,7 +1167,7 @@ Proof.
           rewrite Hpd, Hf_s. destruct (Hr s k0 ob0 Ho0 Hob0) as [X|X]; [left; exact X|right; exact X].
         + assert (sd0 = t) by (unfold t; destruct sd0, s; try reflexivity; contradiction). subst sd0.
           rewrite Hf_t in Ho0. cbn [w_chg w_ex s_oid] in Ho0. congruence. }
-    split; [reflexivity|exact Hgx].
+    split; [reflexivity|]. split; [exact Hgx|]. intros sd0 k0 cs0 Hg0. apply Hobj.
 Qed.
 
 (* ------------------------------------------------------------------ punt *)
